@@ -46,6 +46,7 @@ ASSUMPTIONS = ['mopack unusable: --no-resolve-packages']
 
 BUILD_BFG = """\
 project('c08', version='1.0')
+global_options(['-DDEEP=' + str(argv.deep)], lang='c')
 srcs = find_files('src/**/*.c'{extra})
 plat = find_files('plat/*.c', filter=filter_by_platform)
 data = find_paths('data/*', type='f', exclude=['*.tmp'])
@@ -73,6 +74,11 @@ static_library('sublib', subsrcs)
 """
 OPTIONS_BFG = """\
 argument('level', default='1')
+submodule('optsub')
+{flags}
+"""
+OPTSUB_BFG = """\
+argument('deep', default={deep!r})
 {flags}
 """
 # successive states of the toolchain file: settings are changed, added and
@@ -119,8 +125,9 @@ class RegenMachine(RuleBasedStateMachine):
         self.bld = os.path.join(self.tmp, 'bld')
         self.tc = os.path.join(self.tmp, 'toolchain.bfg')
         self.history = []
-        self.flags = {'build': 0, 'sub': 0, 'options': 0}
-        self.comments = {'build': 0, 'sub': 0, 'options': 0, 'toolchain': 0}
+        self.flags = {'build': 0, 'sub': 0, 'options': 0, 'optsub': 0}
+        self.comments = {'build': 0, 'sub': 0, 'options': 0, 'toolchain': 0,
+                         'optsub': 0}
         self.tcstate = 0
         self.files = set()
         self.configured = False
@@ -148,7 +155,8 @@ class RegenMachine(RuleBasedStateMachine):
             if os.path.lexists(p):
                 os.utime(p, ns=(t, t))
 
-    def _write_scripts(self, which=('build', 'sub', 'options', 'toolchain')):
+    def _write_scripts(self, which=('build', 'sub', 'options', 'toolchain',
+                                    'optsub')):
         def flags(kind):
             out = ["command('flag_{}_{}', cmd=['true'])".format(kind, i)
                    for i in range(self.flags.get(kind, 0))]
@@ -171,6 +179,15 @@ class RegenMachine(RuleBasedStateMachine):
         if 'options' in which:
             sandbox.write_file(os.path.join(self.src, 'options.bfg'),
                                OPTIONS_BFG.format(flags=flags('options')))
+        if 'optsub' in which:
+            # an options script included from options.bfg; its argument's
+            # default value ends up in a compile flag
+            sandbox.write_file(
+                os.path.join(self.src, 'optsub', 'options.bfg'),
+                OPTSUB_BFG.format(deep='d{}'.format(self.flags['optsub']),
+                                  flags='\n'.join(
+                                      '# comment {}'.format(i) for i in range(
+                                          self.comments['optsub']))))
         if 'toolchain' in which:
             sandbox.write_file(self.tc, TC_STATES[self.tcstate] +
                                '\n'.join('# c{}'.format(i) for i in range(
@@ -299,7 +316,8 @@ class RegenMachine(RuleBasedStateMachine):
         self.history.append(['rename_dir', d, nd])
         self.pending.append('rename_dir')
 
-    @rule(which=st.sampled_from(['build', 'sub', 'options', 'toolchain']),
+    @rule(which=st.sampled_from(['build', 'sub', 'options', 'toolchain',
+                                 'optsub']),
           semantic=st.booleans())
     def edit_script(self, which, semantic):
         if which == 'sub' and not os.path.isdir(os.path.join(self.src,
@@ -316,6 +334,7 @@ class RegenMachine(RuleBasedStateMachine):
         path = {'build': os.path.join(self.src, 'build.bfg'),
                 'sub': os.path.join(self.src, 'sub', 'build.bfg'),
                 'options': os.path.join(self.src, 'options.bfg'),
+                'optsub': os.path.join(self.src, 'optsub', 'options.bfg'),
                 'toolchain': self.tc}[which]
         t = self.clock.tick(self.tmp)
         os.utime(path, ns=(t, t))
@@ -537,6 +556,8 @@ def replay_history(case, rec):
                 path = {'build': os.path.join(m.src, 'build.bfg'),
                         'sub': os.path.join(m.src, 'sub', 'build.bfg'),
                         'options': os.path.join(m.src, 'options.bfg'),
+                        'optsub': os.path.join(m.src, 'optsub',
+                                               'options.bfg'),
                         'toolchain': m.tc}[which]
                 t = m.clock.tick(m.tmp)
                 os.utime(path, ns=(t, t))
@@ -547,8 +568,34 @@ def replay_history(case, rec):
         m.ctx.__exit__(None, None, None)
 
 
+def _run_core(rec, seed, budget, shard, nshards):
+    """Short canonical histories, always run: one edit of every script
+    kind (semantic and comment-only) between two builds, per backend."""
+    jobs = []
+    for backend in ('make', 'ninja'):
+        for which in ('build', 'sub', 'options', 'optsub', 'toolchain'):
+            for kind in ('semantic', 'comment'):
+                for pkg in (False, True):
+                    jobs.append({'backend': backend, 'use_extra': False,
+                                 'use_pkg': pkg, 'history': [
+                                     ['configure'], ['build'],
+                                     ['edit_script', which, kind],
+                                     ['build'], ['build']]})
+    for k, case in enumerate(jobs):
+        if k % nshards != shard:
+            continue
+        rec.case({case['backend'], 'edit:' + case['history'][2][1]},
+                 nontrivial=[case['backend'], case['use_pkg'],
+                             case['history'][2][1:]], sample=case)
+        try:
+            replay_history(case, rec)
+        except Violation as v:
+            rec.fail('core/' + v.key, v.message, case)
+
+
 def tasks(tier):
-    return [Task('regen-make', _run, quick=16 * 8, thorough=16 * 60,
+    return [Task('core-histories', _run_core, quick=1, thorough=1),
+            Task('regen-make', _run, quick=16 * 8, thorough=16 * 60,
                  backend='make'),
             Task('regen-ninja', _run, quick=16 * 6, thorough=16 * 60,
                  backend='ninja'),
